@@ -25,6 +25,8 @@ def _names(shape):
         return (lambda m: ["t", "$" + m, "v"]), (lambda m: ["t", "$" + m, "#"])
     if shape == 3:
         return (lambda m: ["t", m, "$s", "z"]), (lambda m: ["t", m, "#"])
+    if shape == 4:   # the filter reaches the topic only through '#' standing for its parent level
+        return (lambda m: ["t", m]), (lambda m: ["t", m, "#"])
     return (lambda m: ["t", m]), (lambda m: ["t", m])
 
 
